@@ -7,6 +7,7 @@ package hipam
 // write. The oracle runs in every reachable datastore state.
 
 import (
+	"fmt"
 	"testing"
 
 	"github.com/projectcalico/calico/libcalico-go/lib/backend/model"
@@ -50,6 +51,18 @@ func c19Scenarios(thorough bool) []*schedScenario {
 		// assign then release by the same client, racing a second client
 		{Name: "assign-release-vs-assign", Cfg: c19Cfg(false),
 			Threads: [][]vOp{{auto("n1", "h1"), {Kind: "rbh", Handle: "h1"}}, {auto("n1", "h2")}}},
+	}
+	// specific-address assign of EVERY address of the pool while it is free (incl. the one the next
+	// automatic assignment would pick, i.e. the head of the block's free list), followed by
+	// automatic assignments that must not hand the same address out again; and racing one.
+	for i := 0; i < 8; i++ {
+		ip := fmt.Sprintf("10.0.0.%d", i)
+		scs = append(scs, &schedScenario{Name: "assignip-free-" + ip + "-then-assign", Cfg: c19Cfg(false), Setup: []vOp{auto("n1", "h0")},
+			Threads: [][]vOp{{{Kind: "assignip", Host: "n1", Handle: "h2", IP: ip}, {Kind: "auto", Host: "n1", Handle: "h3", Num: 2}}}})
+	}
+	for _, ip := range []string{"10.0.0.1", "10.0.0.5"} {
+		scs = append(scs, &schedScenario{Name: "assignip-free-" + ip + "-vs-assign", Cfg: c19Cfg(false), Setup: []vOp{auto("n1", "h0")},
+			Threads: [][]vOp{{{Kind: "assignip", Host: "n1", Handle: "h2", IP: ip}}, {auto("n1", "h3"), auto("n1", "h4")}}})
 	}
 	if thorough {
 		scs = append(scs,
